@@ -9,14 +9,25 @@ from oracle import dense, pauli
 class FakeResult:
     """what the fitters need from qiskit.result.Result: get_counts() -> dict (one circuit) or list of dicts"""
 
-    def __init__(self, counts_list, single_as_dict=True):
+    def __init__(self, counts_list, single_as_dict=True, names=None):
         self._c = counts_list
         self._single = single_as_dict
+        self._names = list(names) if names is not None else [None] * len(counts_list)
 
-    def get_counts(self, *a, **k):
-        if len(self._c) == 1 and self._single:
-            return dict(self._c[0])
-        return [dict(c) for c in self._c]
+    def get_counts(self, experiment=None):
+        """as qiskit.result.Result.get_counts: no argument -> all experiments (a dict if there is one, else a list); an index -> that
+        experiment; a circuit or a name -> the FIRST experiment whose header carries that name"""
+        if experiment is None:
+            if len(self._c) == 1 and self._single:
+                return dict(self._c[0])
+            return [dict(c) for c in self._c]
+        if isinstance(experiment, (int, np.integer)) and not isinstance(experiment, bool):
+            return dict(self._c[int(experiment)])
+        name = experiment if isinstance(experiment, str) else getattr(experiment, "name", None)
+        for c, nm in zip(self._c, self._names):
+            if nm is not None and nm == name:
+                return dict(c)
+        raise LookupError(f'Data for experiment "{name}" could not be found.')
 
 
 def make_result(counts_list, circuits, salt, single_as_dict=True):
@@ -24,7 +35,7 @@ def make_result(counts_list, circuits, salt, single_as_dict=True):
     Result.from_dict (hexadecimal keys, experiment headers carrying the circuit's name and classical register size, as a backend
     produces them; exact probabilities / rescaled counts are kept as given)"""
     if salt % 2 == 0:
-        return FakeResult(counts_list, single_as_dict=single_as_dict)
+        return FakeResult(counts_list, single_as_dict=single_as_dict, names=[qc.name for qc in circuits])
     from qiskit.result import Result
     exps = []
     for c, qc in zip(counts_list, circuits):
